@@ -233,11 +233,11 @@ def bts2bool (d : Bytes) : Bool :=
   | l :: rest => rest.any (· != 0) || (l &&& 0x7f) != 0
 
 /-- minimal little-endian bytes of a natural number (`for val != 0 { d = append(d, byte(val)); val >>= 8 }`);
-    fuel 9 covers every int64 magnitude -/
+    the loop runs until the value is 0, so the fuel is the value itself (n < 256^n: never exhausted) -/
 def natLEAux : Nat → Nat → Bytes
   | 0, _ => []
   | f+1, n => if n = 0 then [] else UInt8.ofNat (n % 256) :: natLEAux f (n / 256)
-def natLE (n : Nat) : Bytes := natLEAux 9 n
+def natLE (n : Nat) : Bytes := natLEAux n n
 
 /-- the byte string `scrStack.pushInt(val)` pushes -/
 def intBytes (v : Int) : Bytes :=
